@@ -296,64 +296,3 @@ pub(crate) fn generate_nonce(length: usize) -> String {
         .map(char::from)
         .collect()
 }
-
-/// Verification hooks, compiled only with `--cfg sdjwt_verif`: the private tree functions of this module
-/// made callable for the function-level correspondence runs of the verification harness. They add no
-/// behaviour of their own.
-#[cfg(sdjwt_verif)]
-pub mod verif_hooks {
-    use super::*;
-
-    pub const MAX_NESTING_DEPTH: usize = super::MAX_NESTING_DEPTH;
-
-    pub fn restore_disclosure(
-        claims: &mut Value,
-        disclosure: &Disclosure,
-        current_path: String,
-        disclosure_paths: &mut Vec<DisclosurePath>,
-        depth: usize,
-    ) -> Result<bool, Error> {
-        super::restore_disclosure(claims, disclosure, current_path, disclosure_paths, depth)
-    }
-
-    pub fn restore_disclosures(
-        claims: &mut Value,
-        disclosures: &[String],
-        disclosure_paths: &mut Vec<DisclosurePath>,
-        algorithm: HashAlgorithm,
-    ) -> Result<(), Error> {
-        super::restore_disclosures(claims, disclosures, disclosure_paths, algorithm)
-    }
-
-    pub fn check_digests(
-        claims: &Value,
-        digests: &mut HashSet<String>,
-        depth: usize,
-    ) -> Result<(), Error> {
-        super::check_digests(claims, digests, depth)
-    }
-
-    pub fn remove_digests(claims: &mut Value) -> Result<(), Error> {
-        super::remove_digests(claims)
-    }
-
-    pub fn remove_all_digests(claims: &mut Value) -> Result<(), Error> {
-        super::remove_all_digests(claims)
-    }
-
-    pub fn sd_contains_digest(sd: &Value, digest: &str) -> Result<bool, Error> {
-        super::sd_contains_digest(sd, digest)
-    }
-
-    pub fn declared_hash_alg(claims: &Value) -> Result<HashAlgorithm, Error> {
-        super::declared_hash_alg(claims)
-    }
-
-    pub fn format_path(parent_path: &str, key: &str) -> String {
-        super::format_path(parent_path, key)
-    }
-
-    pub fn drop_kb(input: &str) -> String {
-        super::drop_kb(input)
-    }
-}
